@@ -71,10 +71,10 @@ func (s GState) Key() string {
 
 // GOp is one operation of the menu.
 type GOp struct {
-	Op   string `json:"op"`
-	U    string `json:"u"`
-	V    string `json:"v,omitempty"`
-	Rep  int    `json:"rep,omitempty"`
+	Op  string `json:"op"`
+	U   string `json:"u"`
+	V   string `json:"v,omitempty"`
+	Rep int    `json:"rep,omitempty"`
 }
 
 func (o GOp) String() string {
@@ -319,7 +319,9 @@ func opMenu(codes []string, s GState) []GOp {
 
 // checkGCase checks every operation on the state; transitions counts (state,op) pairs.
 func checkGCase(c GCase, transitions *int) (fs []Finding) {
-	add := func(clause, m string, a ...interface{}) { fs = append(fs, Finding{"C19", clause, fmt.Sprintf(m, a...)}) }
+	add := func(clause, m string, a ...interface{}) {
+		fs = append(fs, Finding{"C19", clause, fmt.Sprintf(m, a...)})
+	}
 	cur := "setup"
 	defer func() {
 		if r := recover(); r != nil {
@@ -458,7 +460,9 @@ func init() {
 				stats.Premise++
 				stats.Nontrivial++
 				if depth >= 3 {
-					noteSample(func() string { return fmt.Sprintf("state %s reached by %v; operations checked: %v", s.Key(), path, opMenu(codes, s)) })
+					noteSample(func() string {
+						return fmt.Sprintf("state %s reached by %v; operations checked: %v", s.Key(), path, opMenu(codes, s))
+					})
 				}
 				// the order dimension is explored per (state, operation): the choice
 				// points of one operation's check are independent of another's
